@@ -56,6 +56,20 @@ def check_case(out: Outcome, case, tag):
         want = float(np.mean(dist2[-1])) * angstrom**2 / (2 * dims * total_time)
         if not np.isclose(got, want, rtol=1e-9, atol=0):
             out.fail('property', 'tracer-diffusivity', case, expected=want, observed=got, note=f'dimensions={dims}')
+    # query -> extend -> query on the same object: the second answer must describe the extended trajectory
+    if T >= 4:
+        h = T // 2
+        first = gem.make_traj(coords[:h], lat, ['Li'] * A, time_step=case['time_step'])
+        _ = first.mean_squared_displacement()
+        _ = first.distances_from_base_position()
+        first.extend(gem.make_traj(coords[h:], lat, ['Li'] * A, time_step=case['time_step']))
+        msd2 = np.array(first.mean_squared_displacement())
+        d2 = np.array(first.distances_from_base_position())
+        if msd2.shape != defn.shape or not np.allclose(msd2, defn, rtol=1e-9, atol=1e-9 * scale):
+            out.fail('property', 'msd-equals-definition', {**case, 'history': 'query, extend, query'}, expected=list(defn.shape), observed=list(msd2.shape),
+                     note='after extend() the MSD does not describe the extended trajectory')
+        elif d2.T.shape != dist2.shape or not np.allclose(d2.T ** 2, dist2, rtol=1e-9, atol=1e-12 * scale):
+            out.fail('property', 'distance-is-cartesian-length', {**case, 'history': 'query, extend, query'}, expected=list(dist2.shape), observed=list(d2.T.shape))
     crossing = bool(np.any(np.floor(coords[1:]) != np.floor(coords[:-1])))
     skew = not np.array_equal(lat, np.diag(np.diag(lat)))
     differ = A >= 2 and len({tuple(np.round(np.diff(coords[:, a], axis=0).reshape(-1), 9)) for a in range(A)}) >= 2
